@@ -635,6 +635,8 @@ pub fn main(args: &Args, threads: usize) -> ! {
         }
     }
     let mut frontier: Vec<(Vec<TStep>, usize)> = vec![(vec![], 0)];
+    let capped = std::sync::atomic::AtomicBool::new(false);
+    let capped = &capped;
     let mut seen: HashSet<Vec<(usize, usize, usize, bool)>> = HashSet::new();
     let mut levels = vec![];
     for level in 0..vmax {
@@ -652,6 +654,11 @@ pub fn main(args: &Args, threads: usize) -> ! {
                         let last_level = level + 1 == vmax;
                         let mut bad = vec![];
                         for (hist, m) in chunk.iter() {
+                            // memory cap (no swap on the host): stop and report the level as incomplete
+                            if capped.load(std::sync::atomic::Ordering::Relaxed) || crate::layout::resident_gb() > crate::layout::RSS_CAP_GB {
+                                capped.store(true, std::sync::atomic::Ordering::Relaxed);
+                                break;
+                            }
                             for rem in subsets(*m, rmax) {
                                 for adds in seqs {
                                     if level > 0 && rem.is_empty() && adds.is_empty() {
@@ -740,7 +747,8 @@ pub fn main(args: &Args, threads: usize) -> ! {
         .cov("transitions", transitions)
         .cov("traces_validated_against_impl", transitions)
         .cov("samples", samples)
-        .cov("exhaustive", true)
+        .cov("exhaustive", !capped.load(std::sync::atomic::Ordering::Relaxed))
+        .cov("memory_cap_hit", capped.load(std::sync::atomic::Ordering::Relaxed))
         .cov("levels", levels)
         .cov("entry_point_cases", single)
         .cov("synthetic_types", TYPES.iter().map(|t| json!([t.std_name, t.size, t.align])).collect::<Vec<_>>())
